@@ -23,14 +23,21 @@ pub open spec fn step_spec(remaining: int, fee_rate: int, l: int, cur: int, targ
     &&& s.amount_in as int == delta_in(cur, next, l, a_to_b)
     // output: exact curve amount rounded down, capped by an exact-out request
     &&& s.amount_out as int == (if is_in { delta_out(cur, next, l, a_to_b) } else { min_i(delta_out(cur, next, l, a_to_b), remaining) })
-    // fee: rate/(1-rate) of the curve input rounded up, or the unspendable remainder of an exact-in budget
-    &&& s.fee_amount as int == (if is_in && next != target { remaining - s.amount_in as int } else { fee_on(s.amount_in as int, fee_rate) })
-    // budget
-    &&& (is_in ==> s.amount_in as int + s.fee_amount as int <= remaining)
+    // budget (the part that does not involve the fee)
+    &&& (is_in ==> s.amount_in as int <= net)
     &&& (!is_in ==> s.amount_out as int <= remaining)
-    // stopping short of the target consumes the whole budget / delivers the whole request
-    &&& (next != target && is_in ==> s.amount_in as int + s.fee_amount as int == remaining)
+    // stopping short of the target delivers the whole exact-out request
     &&& (next != target && !is_in ==> s.amount_out as int == remaining)
+}
+/// exact-in budget including the fee: never more than the budget, and all of it when the step stops short of its target
+pub open spec fn step_budget_spec(remaining: int, target: int, is_in: bool, s: SwapStepComputation) -> bool {
+    &&& (is_in ==> s.amount_in as int + s.fee_amount as int <= remaining)
+    &&& (s.next_price as int != target && is_in ==> s.amount_in as int + s.fee_amount as int == remaining)
+}
+
+/// C06: fee = rate/(1-rate) of the curve input rounded up, or the unspendable remainder of an exact-in budget
+pub open spec fn step_fee_spec(remaining: int, fee_rate: int, target: int, is_in: bool, s: SwapStepComputation) -> bool {
+    s.fee_amount as int == (if is_in && s.next_price as int != target { remaining - s.amount_in as int } else { fee_on(s.amount_in as int, fee_rate) })
 }
 
 //@ fn math/swap_math.rs compute_swap -> r
@@ -39,7 +46,9 @@ pub open spec fn step_spec(remaining: int, fee_rate: int, l: int, cur: int, targ
         // the target lies on the trade side of the current price (established by the swap loop, see swap_manager)
         a_to_b ==> sqrt_price_target <= sqrt_price_current, !a_to_b ==> sqrt_price_target >= sqrt_price_current,
     ensures
-        r matches Ok(s) ==> step_spec(amount_remaining as int, fee_rate as int, liquidity as int, sqrt_price_current as int, sqrt_price_target as int, amount_specified_is_input, a_to_b, s), //# C02 C06 C01 C03
+        r matches Ok(s) ==> step_spec(amount_remaining as int, fee_rate as int, liquidity as int, sqrt_price_current as int, sqrt_price_target as int, amount_specified_is_input, a_to_b, s), //# C02 C01 C03
+        r matches Ok(s) ==> step_budget_spec(amount_remaining as int, sqrt_price_target as int, amount_specified_is_input, s), //# C02 C03 C06 C01
+        r matches Ok(s) ==> step_fee_spec(amount_remaining as int, fee_rate as int, sqrt_price_target as int, amount_specified_is_input, s), //# C06 C01
         // direction: never past the target, never against the trade direction
         r matches Ok(s) ==> (a_to_b ==> sqrt_price_target <= s.next_price <= sqrt_price_current), //# C02 C03 C01
         r matches Ok(s) ==> (!a_to_b ==> sqrt_price_current <= s.next_price <= sqrt_price_target), //# C02 C03 C01
@@ -53,6 +62,12 @@ pub open spec fn step_spec(remaining: int, fee_rate: int, l: int, cur: int, targ
             lemma_partial_step(sqrt_price_current as int, sqrt_price_target as int, liquidity as int, net, amount_specified_is_input, a_to_b);
         }
         lemma_fee_fits(amount_remaining as int, fee_rate as int);
+    }
+//@ inject before /Ok\(SwapStepComputation \{/
+    proof {
+        if amount_specified_is_input && amount_in <= amount_calc {
+            lemma_fee_fits_one(amount_remaining as int, fee_rate as int, amount_in as int);
+        }
     }
 //@ end
 
